@@ -504,7 +504,7 @@ class Engine(Executor):
                 else:
                     items = L.LT(o.lt.segs[marks[n]:])
                 if items.segs:
-                    per_acc[n].append(L.Guard(guard, items))
+                    per_acc[n].append(items if z3.is_true(z3.simplify(guard)) else L.Guard(guard, items))
             finals.append((guard, {n: s.frame.locals.get(n, _UNBOUND) for n in assigned
                                    if n not in _names(stmt.target)}))
             for k, o in s.heap.items():
